@@ -11,3 +11,5 @@ CONSTANTS
  MaxOps = 4
  Styles = {"write"}
  EmptyData = "d0"
+ CopyOn = FALSE
+ CopyMiss = {}
